@@ -1,0 +1,65 @@
+//go:build verif
+
+// Contracts for the deductive verifier in /verif (govc). This file is compiled only with
+// -tags verif and contains no production code: contracts are the //@ comment blocks, keyed by
+// function name and loop ordinal; lemma harnesses are ordinary functions that call the real
+// code and end in verifAssert.
+
+package opcua
+
+func verifAssert(label string, cond bool) {
+	if !cond {
+		panic("verif: assertion failed: " + label)
+	}
+}
+
+func verifCanary(label string, cond bool) {}
+
+// ---------------------------------------------------------------------------
+// C24: endpoint selection
+// ---------------------------------------------------------------------------
+
+// match(e, q, mode): endpoint e satisfies the query (q is the canonical policy URI, "" = don't care;
+// mode Invalid = don't care). Taken from the property statement.
+//@ pred match(e *ua.EndpointDescription, q string, mode ua.MessageSecurityMode) :=
+//@     (q == "" || e.SecurityPolicyURI == q) && (mode == ua.MessageSecurityModeInvalid || e.SecurityMode == mode)
+
+// ghost permutation relating the endpoint list before and after sorting
+//@ ufunc permFwd(int) int
+//@ ufunc permBwd(int) int
+
+//@ func (bySecurityLevel).Less
+//@   props C24
+//@   requires 0 <= i && i < len(a) && 0 <= j && j < len(a) && a[i] != nil && a[j] != nil
+//@   assigns nothing
+//@   ensures [C24:less] result == (a[i].SecurityLevel < a[j].SecurityLevel)
+
+//@ func SelectEndpoint
+//@   props C24
+//@   requires forall k int :: { endpoints[k] } 0 <= k && k < len(endpoints) ==> endpoints[k] != nil
+//@   let q = ua.FormatSecurityPolicyURI(policy)
+//@   assigns elems(endpoints)
+//@   after "sort.Reverse(bySecurityLevel(endpoints))" assigns nothing
+//@   after "sort.Sort(sort.Reverse(bySecurityLevel(endpoints)))" assigns elems(endpoints)
+//@   after "sort.Sort(sort.Reverse(bySecurityLevel(endpoints)))" ensures forall i int, j int :: { endpoints[i], endpoints[j] }
+//@         0 <= i && i < j && j < len(endpoints) ==> !bySecurityLevel(endpoints).Less(i, j)
+//@   after "sort.Sort(sort.Reverse(bySecurityLevel(endpoints)))" ensures forall k int :: { endpoints[k] }
+//@         0 <= k && k < len(endpoints) ==> 0 <= permFwd(k) && permFwd(k) < len(endpoints) && endpoints[k] == old(endpoints[permFwd(k)]) &&
+//@         permBwd(permFwd(k)) == k
+//@   after "sort.Sort(sort.Reverse(bySecurityLevel(endpoints)))" ensures forall k int :: { old(endpoints[k]) }
+//@         0 <= k && k < len(endpoints) ==> 0 <= permBwd(k) && permBwd(k) < len(endpoints) && old(endpoints[k]) == endpoints[permBwd(k)] &&
+//@         permFwd(permBwd(k)) == k
+//@   ensures [C24:match] err == nil ==> result0 != nil && match(result0, q, mode)
+//@   ensures [C24:member-sorted] err == nil ==> exists k int :: 0 <= k && k < len(endpoints) && endpoints[k] == result0
+//@   ensures [C24:best-sorted] err == nil ==> forall k int :: { endpoints[k] } 0 <= k && k < len(endpoints) && match(endpoints[k], q, mode) ==>
+//@           endpoints[k].SecurityLevel <= result0.SecurityLevel
+//@   ensures [C24:member] err == nil ==> exists k int :: 0 <= k && k < len(endpoints) && old(endpoints[k]) == result0
+//@   ensures [C24:best] err == nil ==> forall k int :: { old(endpoints[k]) } 0 <= k && k < len(endpoints) && match(old(endpoints[k]), q, mode) ==>
+//@           old(endpoints[k]).SecurityLevel <= result0.SecurityLevel
+//@   ensures [C24:fails-only-without-match] err != nil ==> forall k int :: { old(endpoints[k]) } 0 <= k && k < len(endpoints) ==> !match(old(endpoints[k]), q, mode)
+//@   ensures [C24:value-or-error] (err == nil) != (result0 == nil)
+//@   canary ensures [C24:canary-first] err == nil ==> result0 == old(endpoints[0])
+//@   loop 0 invariant -1 <= rangeindex && rangeindex < len(endpoints)
+//@   loop 0 invariant forall m int :: { endpoints[m] } 0 <= m && m <= rangeindex ==> !match(endpoints[m], q, mode)
+//@   loop 0 invariant policy == q && !(q == "" && mode == ua.MessageSecurityModeInvalid)
+//@   loop 0 decreases len(endpoints) - rangeindex
